@@ -86,12 +86,19 @@ def container(p, how):
     return p.copy()
 
 
-def invoke(am, ptype, entry, system, sel, op, atol_arg, scale=False, db_arg=None, extra=None):
+def invoke(am, ptype, entry, system, sel, op, atol_arg, scale=False, db_arg=None, extra=None, spell_defaults=False):
     args = dict(sel)
     if scale:
         args['scale'] = True
+    elif spell_defaults:
+        args['scale'] = False
     if atol_arg is not None:
         args['atol'] = atol_arg
+    elif spell_defaults:
+        args['atol'] = None
+    if spell_defaults and sel and ptype != 'i':          # the unused selector spelled out as None
+        args.setdefault('pos', None)
+        args.setdefault('ptd_id', None)
     if ptype == 'db':
         args['db_vect'] = db_arg
     if ptype == 's' and op.get('atype') is not None:
@@ -251,8 +258,9 @@ class Runner:
     """One system + one operation: performs real calls in the requested
     selection form and judges them."""
 
-    def __init__(self, ctx, am, system, spec_atol, atol_arg, entry, L):
+    def __init__(self, ctx, am, system, spec_atol, atol_arg, entry, L, spell_defaults=False):
         self.ctx, self.rec, self.am = ctx, ctx.rec, am
+        self.spell_defaults = spell_defaults          # pass scale=False / atol=None / pos=None / ptd_id=None explicitly
         self.system = system
         self.before = snapshot(system)
         self.atol, self.atol_arg, self.entry = spec_atol, atol_arg, entry
@@ -282,7 +290,8 @@ class Runner:
         a = self.atol_arg if atol_arg == 'same' else atol_arg
         rec.count(f'accept:{pt}:{tag}')
         try:
-            res = invoke(self.am, pt, entry or self.entry, self.system, sel, op, a, scale=scale, db_arg=db_arg)
+            res = invoke(self.am, pt, entry or self.entry, self.system, sel, op, a, scale=scale, db_arg=db_arg,
+                         spell_defaults=self.spell_defaults)
         except Exception as e:
             if n1 and posform and is_axis_error(e):
                 rec.check(False, C_SEL, SINGLE_KEY, exception=e, ptype=pt, form=tag)
@@ -310,7 +319,8 @@ class Runner:
         a = self.atol_arg if atol_arg == 'same' else atol_arg
         rec.count(f'refuse:{pt}:{tag}')
         try:
-            res = invoke(self.am, pt, entry or self.entry, self.system, sel, op, a, scale=scale, db_arg=db_arg, extra=extra)
+            res = invoke(self.am, pt, entry or self.entry, self.system, sel, op, a, scale=scale, db_arg=db_arg, extra=extra,
+                         spell_defaults=self.spell_defaults)
         except Exception as e:
             if is_axis_error(e):
                 rec.check(False, C_REFUSE, SINGLE_KEY if self.before.n == 1 and posform else f'{pt}:{tag}:crash-not-refusal',
@@ -713,8 +723,8 @@ def reach_counters(rec):
     hit = set(cover.lines('atomman/defect/point.py'))
     for name, text in anchors.items():
         lines = [ln + 1 for ln, s in enumerate(src) if text in s]
-        rec.count(name, sum(1 for ln in lines if ln in hit))
-        rec.count(name + ':anchors', len(lines))
+        for nth, ln in enumerate(lines):          # one counter per occurrence (vacancy, [interstitial,] substitutional, dumbbell)
+            rec.count(f'{name}#{nth}', 1 if ln in hit else 0)
 
 
 def run(ctx):
@@ -725,7 +735,7 @@ def run(ctx):
     install_monitors(rec, am)
 
     try:
-        n_single = ctx.pick(1008, 20160)
+        n_single = ctx.pick(1008, 15120)
         for i in ctx.cases('single', n_single):
             rng = ctx.rng
             ptype = PTYPES[i % 4]
@@ -738,13 +748,14 @@ def run(ctx):
             atolclass = GEN.ATOLCLASSES[(i // 5) % 3]
             ntypes = 1 + (i // 7) % 3
             cell = GEN.prepare_cell(rng, syskind, kind, oc, scale)
-            spec = GEN.gen_system(rng, syskind, cell, pbc, ntypes, propclass, atolclass)
+            spec = GEN.gen_system(rng, syskind, cell, pbc, ntypes, propclass, atolclass, nmax=ctx.pick(24, 60))
             system = None
             with ctx.guard('System can be built from the generated description', 'harness:build'):
                 system = build_system(am, spec)
             if system is None:
                 continue
-            R = Runner(ctx, am, system, spec['atol'], spec['atol_arg'], entry, spec['L'])
+            R = Runner(ctx, am, system, spec['atol'], spec['atol_arg'], entry, spec['L'], spell_defaults=(i // 9) % 2 == 1)
+            rec.count('class:defaults-spelled-out' if R.spell_defaults else 'class:defaults-omitted')
             if ptype == 'i':
                 op, nj = run_interstitial_case(ctx, R, rng, spec, syskind, kwclass, i)
             else:
@@ -764,7 +775,7 @@ def run(ctx):
                                 pbc=pbc, props=list(R.before.props), atol=spec['atol_arg'], site=op.get('site'),
                                 kw=sorted((op.get('kw') or {}).keys()), vects=R.before.vects))
 
-        n_hist = ctx.pick(192, 3840)
+        n_hist = ctx.pick(192, 2880)
         for i in ctx.cases('history', n_hist):
             run_history(ctx, am, i)
     finally:
@@ -797,6 +808,8 @@ def run(ctx):
     rec.floor('accept:s:negindex', 30)
     rec.floor('accept:db:negindex', 30)
     rec.floor('refuse:s:same-type', 30)
-    for name in ('reach:negative-index-normalisation', 'reach:refusal-not-unique', 'reach:refusal-occupied',
-                 'reach:refusal-same-type', 'reach:refusal-both', 'reach:refusal-invalid-index', 'reach:old_id-created'):
-        rec.floor(name, 1)
+    for name, nocc in (('reach:negative-index-normalisation', 3), ('reach:refusal-not-unique', 3), ('reach:refusal-occupied', 1),
+                       ('reach:refusal-same-type', 1), ('reach:refusal-both', 3), ('reach:refusal-invalid-index', 3),
+                       ('reach:old_id-created', 4)):
+        for nth in range(nocc):
+            rec.floor(f'{name}#{nth}', 1)
